@@ -31,12 +31,12 @@ type recorder struct {
 	mu    sync.Mutex
 	Calls []Call
 	// Hook, if set, is invoked at the entry of every backend method (scheduling point for C18).
-	Hook func(method, path string)
+	Hook func(ctx context.Context, method, path string)
 }
 
-func (r *recorder) rec(m, p string, arg interface{}) {
+func (r *recorder) rec(ctx context.Context, m, p string, arg interface{}) {
 	if r.Hook != nil {
-		r.Hook(m, p)
+		r.Hook(ctx, m, p)
 	}
 	r.mu.Lock()
 	r.Calls = append(r.Calls, Call{m, p, arg})
@@ -80,26 +80,26 @@ type CalBackend struct {
 func notFound(what string) error { return webdav.NewHTTPError(404, fmt.Errorf("%s not found", what)) }
 
 func (b *CalBackend) CurrentUserPrincipal(ctx context.Context) (string, error) {
-	b.rec("CurrentUserPrincipal", "", nil)
+	b.rec(ctx, "CurrentUserPrincipal", "", nil)
 	return b.Principal, nil
 }
 func (b *CalBackend) CalendarHomeSetPath(ctx context.Context) (string, error) {
-	b.rec("CalendarHomeSetPath", "", nil)
+	b.rec(ctx, "CalendarHomeSetPath", "", nil)
 	return b.HomeSet, nil
 }
 func (b *CalBackend) CreateCalendar(ctx context.Context, c *caldav.Calendar) error {
-	b.rec("CreateCalendar", c.Path, *c)
+	b.rec(ctx, "CreateCalendar", c.Path, *c)
 	b.mu.Lock()
 	b.Calendars = append(b.Calendars, *c)
 	b.mu.Unlock()
 	return nil
 }
 func (b *CalBackend) ListCalendars(ctx context.Context) ([]caldav.Calendar, error) {
-	b.rec("ListCalendars", "", nil)
+	b.rec(ctx, "ListCalendars", "", nil)
 	return append([]caldav.Calendar(nil), b.Calendars...), nil
 }
 func (b *CalBackend) GetCalendar(ctx context.Context, p string) (*caldav.Calendar, error) {
-	b.rec("GetCalendar", p, nil)
+	b.rec(ctx, "GetCalendar", p, nil)
 	if e := b.Errs[p]; e != nil {
 		return nil, e
 	}
@@ -116,7 +116,7 @@ func (b *CalBackend) GetCalendarObject(ctx context.Context, p string, req *calda
 	if req != nil {
 		r = *req
 	}
-	b.rec("GetCalendarObject", p, r)
+	b.rec(ctx, "GetCalendarObject", p, r)
 	if e := b.Errs[p]; e != nil {
 		return nil, e
 	}
@@ -131,7 +131,7 @@ func (b *CalBackend) GetCalendarObject(ctx context.Context, p string, req *calda
 	return nil, notFound("calendar object")
 }
 func (b *CalBackend) ListCalendarObjects(ctx context.Context, p string, req *caldav.CalendarCompRequest) ([]caldav.CalendarObject, error) {
-	b.rec("ListCalendarObjects", p, nil)
+	b.rec(ctx, "ListCalendarObjects", p, nil)
 	b.mu.Lock()
 	defer b.mu.Unlock()
 	var out []caldav.CalendarObject
@@ -147,7 +147,7 @@ func (b *CalBackend) QueryCalendarObjects(ctx context.Context, p string, q *cald
 	if q != nil {
 		arg = *q
 	}
-	b.rec("QueryCalendarObjects", p, arg)
+	b.rec(ctx, "QueryCalendarObjects", p, arg)
 	if b.QueryResult != nil {
 		return b.QueryResult, nil
 	}
@@ -175,7 +175,7 @@ func (b *CalBackend) PutCalendarObject(ctx context.Context, p string, cal *ical.
 	if opts != nil {
 		arg.IfMatch, arg.IfNoneMatch = string(opts.IfMatch), string(opts.IfNoneMatch)
 	}
-	b.rec("PutCalendarObject", p, arg)
+	b.rec(ctx, "PutCalendarObject", p, arg)
 	if b.PutErr != nil {
 		return nil, b.PutErr
 	}
@@ -199,7 +199,7 @@ func (b *CalBackend) PutCalendarObject(ctx context.Context, p string, cal *ical.
 	return &o, nil
 }
 func (b *CalBackend) DeleteCalendarObject(ctx context.Context, p string) error {
-	b.rec("DeleteCalendarObject", p, nil)
+	b.rec(ctx, "DeleteCalendarObject", p, nil)
 	b.mu.Lock()
 	defer b.mu.Unlock()
 	for i := range b.Objects {
@@ -227,19 +227,19 @@ type CardBackend struct {
 }
 
 func (b *CardBackend) CurrentUserPrincipal(ctx context.Context) (string, error) {
-	b.rec("CurrentUserPrincipal", "", nil)
+	b.rec(ctx, "CurrentUserPrincipal", "", nil)
 	return b.Principal, nil
 }
 func (b *CardBackend) AddressBookHomeSetPath(ctx context.Context) (string, error) {
-	b.rec("AddressBookHomeSetPath", "", nil)
+	b.rec(ctx, "AddressBookHomeSetPath", "", nil)
 	return b.HomeSet, nil
 }
 func (b *CardBackend) ListAddressBooks(ctx context.Context) ([]carddav.AddressBook, error) {
-	b.rec("ListAddressBooks", "", nil)
+	b.rec(ctx, "ListAddressBooks", "", nil)
 	return append([]carddav.AddressBook(nil), b.Books...), nil
 }
 func (b *CardBackend) GetAddressBook(ctx context.Context, p string) (*carddav.AddressBook, error) {
-	b.rec("GetAddressBook", p, nil)
+	b.rec(ctx, "GetAddressBook", p, nil)
 	if e := b.Errs[p]; e != nil {
 		return nil, e
 	}
@@ -252,14 +252,14 @@ func (b *CardBackend) GetAddressBook(ctx context.Context, p string) (*carddav.Ad
 	return nil, notFound("address book")
 }
 func (b *CardBackend) CreateAddressBook(ctx context.Context, ab *carddav.AddressBook) error {
-	b.rec("CreateAddressBook", ab.Path, *ab)
+	b.rec(ctx, "CreateAddressBook", ab.Path, *ab)
 	b.mu.Lock()
 	b.Books = append(b.Books, *ab)
 	b.mu.Unlock()
 	return nil
 }
 func (b *CardBackend) DeleteAddressBook(ctx context.Context, p string) error {
-	b.rec("DeleteAddressBook", p, nil)
+	b.rec(ctx, "DeleteAddressBook", p, nil)
 	b.mu.Lock()
 	defer b.mu.Unlock()
 	for i := range b.Books {
@@ -275,7 +275,7 @@ func (b *CardBackend) GetAddressObject(ctx context.Context, p string, req *cardd
 	if req != nil {
 		r = *req
 	}
-	b.rec("GetAddressObject", p, r)
+	b.rec(ctx, "GetAddressObject", p, r)
 	if e := b.Errs[p]; e != nil {
 		return nil, e
 	}
@@ -290,7 +290,7 @@ func (b *CardBackend) GetAddressObject(ctx context.Context, p string, req *cardd
 	return nil, notFound("address object")
 }
 func (b *CardBackend) ListAddressObjects(ctx context.Context, p string, req *carddav.AddressDataRequest) ([]carddav.AddressObject, error) {
-	b.rec("ListAddressObjects", p, nil)
+	b.rec(ctx, "ListAddressObjects", p, nil)
 	b.mu.Lock()
 	defer b.mu.Unlock()
 	var out []carddav.AddressObject
@@ -306,7 +306,7 @@ func (b *CardBackend) QueryAddressObjects(ctx context.Context, p string, q *card
 	if q != nil {
 		arg = *q
 	}
-	b.rec("QueryAddressObjects", p, arg)
+	b.rec(ctx, "QueryAddressObjects", p, arg)
 	if b.QueryResult != nil {
 		return b.QueryResult, nil
 	}
@@ -325,7 +325,7 @@ func (b *CardBackend) PutAddressObject(ctx context.Context, p string, card vcard
 	if opts != nil {
 		arg.IfMatch, arg.IfNoneMatch = string(opts.IfMatch), string(opts.IfNoneMatch)
 	}
-	b.rec("PutAddressObject", p, arg)
+	b.rec(ctx, "PutAddressObject", p, arg)
 	if b.PutErr != nil {
 		return nil, b.PutErr
 	}
@@ -349,7 +349,7 @@ func (b *CardBackend) PutAddressObject(ctx context.Context, p string, card vcard
 	return &o, nil
 }
 func (b *CardBackend) DeleteAddressObject(ctx context.Context, p string) error {
-	b.rec("DeleteAddressObject", p, nil)
+	b.rec(ctx, "DeleteAddressObject", p, nil)
 	b.mu.Lock()
 	defer b.mu.Unlock()
 	for i := range b.Objects {
